@@ -1038,3 +1038,133 @@ def check_accessor(ctx, pid, max_rank=3):
                         f'element (i_0..) at {list(wantpos)}',
                         'qvm/eval.py', l_at)
     return res
+
+
+# --------------------------------------------------------------------------
+# record layout: sizes and field offsets of nested records
+# --------------------------------------------------------------------------
+
+def check_record_layout(ctx, pid):
+    """memlayout.get_type_size and get_dotted_index, interpreted on a
+    three-level record (a record that contains a record that contains a
+    record), must describe one layout: a field starts where the previous
+    one ends, a nested field's offset is the sum along its path, and the
+    record's size is where its last field ends.  The unit sizes are the
+    repository's own (builtin types occupy one cell)."""
+    repo = ctx.repo
+    rule = f'{pid}.record-size-equals-the-sum-of-its-fields'
+    ctx.rule(rule, 'for a record R {a: INTEGER, q: Q, z: LONG} with '
+             'Q {x: SINGLE, s: S, y: SINGLE} and S {m, n: INTEGER}: '
+             'get_type_size gives S=2, Q=4, R=6 cells, get_dotted_index gives '
+             'each field the sum of the sizes of the fields before it along '
+             'its path, and size(R) = offset(last field) + size(last field)')
+    m = repo.module('qvm.memlayout')
+    gts = m.functions.get('get_type_size')
+    gdi = m.functions.get('get_dotted_index')
+    if gts is None or gdi is None:
+        raise AnalysisError('anchor vanished: memlayout size/index '
+                            'functions')
+
+    class TypeS(AbsObj):
+        def __init__(self, name, user=None):
+            self.name_, self.user = name, user
+
+        def getattr_(self, a, interp):
+            if a == 'name':
+                return self.name_
+            if a == 'is_array':
+                return False
+            if a in ('is_static_array', 'is_nodim_array'):
+                return False
+            if a == 'user_type_name':
+                return self.user
+            if a == 'is_user_defined':
+                return self.user is not None
+            if a == 'is_builtin':
+                return self.user is None
+            raise Unmodelled(f'type.{a}')
+
+        def eq_(self, other):
+            return isinstance(other, TypeS) and other.name_ == self.name_
+
+    class Struct(AbsObj):
+        def __init__(self, fields):
+            self.fields = fields
+
+        def getattr_(self, a, interp):
+            if a == 'fields':
+                return self.fields
+            raise Unmodelled(f'struct.{a}')
+
+        def instancecheck_(self, x):
+            return True
+    I, L, F = TypeS('integer'), TypeS('long'), TypeS('single')
+    S = Struct({'m': I, 'n': I})
+    Q = Struct({'x': F, 's': TypeS('s', 's'), 'y': F})
+    Rr = Struct({'a': I, 'q': TypeS('q', 'q'), 'z': L})
+    user_types = {'s': S, 'q': Q, 'r': Rr}
+
+    class Ctx(AbsObj):
+        def getattr_(self, a, interp):
+            if a == 'user_types':
+                return user_types
+            raise Unmodelled(f'context.{a}')
+
+    class TypeNS(AbsObj):
+        def getattr_(self, a, interp):
+            if a == 'builtin_types':
+                return [TypeS(n) for n in ('integer', 'long', 'single',
+                                           'double', 'string')]
+            raise Unmodelled(f'Type.{a}')
+
+    class AnyCls(AbsObj):
+        def instancecheck_(self, x):
+            return True
+    hooks = Hooks(repo, extra={'Type': TypeNS(), 'TypeBlock': AnyCls()})
+
+    def call(fn, args):
+        def run(oracle):
+            interp = Interp(hooks, oracle)
+            try:
+                return ('ok', Closure(fn.node,
+                                      hooks.module_env('qvm.memlayout'),
+                                      name=fn.name).call_(args, {}, interp))
+            except Raised as r:
+                return ('raise', r.cls_name, str(r.value)[:60])
+        res = [r for _, r in explore(run, 20)]
+        if len(res) != 1 or res[0][0] != 'ok' or \
+                not isinstance(res[0][1], int):
+            raise Unmodelled(f'{fn.name}: {res[:2]}')
+        return res[0][1]
+    f_file = m.relpath
+    try:
+        size = {n: call(gts, [Ctx(), TypeS(n, n)]) for n in ('s', 'q', 'r')}
+        off = {p: call(gdi, [TypeS('r', 'r'), list(p), Ctx()])
+               for p in (('a',), ('q',), ('z',), ('q', 'x'), ('q', 's'),
+                         ('q', 'y'), ('q', 's', 'm'), ('q', 's', 'n'))}
+    except Unmodelled as u:
+        ctx.observe(f'{f_file}: record layout functions not modelled ({u}); '
+                    f'undecided')
+        ctx.instance(rule, f'{f_file}:record-layout', nontrivial=False)
+        return
+    want_size = {'s': 2, 'q': 4, 'r': 6}
+    want_off = {('a',): 0, ('q',): 1, ('z',): 5, ('q', 'x'): 1,
+                ('q', 's'): 2, ('q', 'y'): 4, ('q', 's', 'm'): 2,
+                ('q', 's', 'n'): 3}
+    ctx.instance(rule, f'{f_file}:get_type_size', sample={'sizes': size})
+    ctx.instance(rule, f'{f_file}:get_dotted_index',
+                 sample={'offsets': {'.'.join(k): v for k, v in off.items()}})
+    if size != want_size:
+        ctx.finding(rule, f'{f_file}:get_type_size',
+                    f'get_type_size gives the nested records the sizes '
+                    f'{size}; their fields need {want_size} cells: frames '
+                    f'and the global area are declared too small and '
+                    f'variables after a nested record overlap it',
+                    f_file, gts.line)
+    if off != want_off:
+        bad = {'.'.join(k): (v, want_off[k]) for k, v in off.items()
+               if v != want_off[k]}
+        ctx.finding(rule, f'{f_file}:get_dotted_index',
+                    f'get_dotted_index places fields at {bad} (got, '
+                    f'expected): a field does not start where the fields '
+                    f'before it end', f_file, gdi.line)
